@@ -30,7 +30,8 @@ def mergeBreakpoints (comb : List Nat) (bufsize : Nat) : List Nat :=
   0 :: breakLoop comb bufsize (comb.getLast?.getD 0) comb.length 0 0
 
 /-- contract of the partition (a free unit): starts at 0, strictly increasing, stays inside the index,
-and from its last element on no input has any record left -/
+and from its last element on no input has any record left.  (`[0]` alone — no epoch at all — is valid
+exactly when there is no record at all: then `comb[0] = comb[last]`.) -/
 def chainIncr : Nat → List Nat → Bool
   | _, [] => true
   | a, b :: rest => decide (a < b) && chainIncr b rest
@@ -41,8 +42,7 @@ def validBreakpoints (comb : List Nat) (part : List Nat) : Bool :=
   | p0 :: rest =>
     decide (p0 = 0) && chainIncr p0 rest &&
       decide ((p0 :: rest).getLast?.getD 0 < comb.length) &&
-      decide (comb.getD ((p0 :: rest).getLast?.getD 0) 0 = comb.getLast?.getD 0) &&
-      !rest.isEmpty
+      decide (comb.getD ((p0 :: rest).getLast?.getD 0) 0 = comb.getLast?.getD 0)
 
 /-- records of rows `[a,b)` of every input, each read through its own index, concatenated
 (`pd.concat([c.pixels()[start:stop] for c in coolers if stop > start])`) -/
